@@ -377,7 +377,7 @@ def run(rep):
                 rep.check(ok, "MISSING", key, n["sp"], "absent field => Missing (or a Missing row in a matrix)", b[:80])
     rep.check(nf >= 20, "MISSING", "MISSING/sites", "src/solver.rs", "at least twenty lookup sites", str(nf))
     core.import_rules(rep, "c06", {"TRI-AND", "TRI-OR", "TRI-NOT", "TRI-ALL", "TRI-OF", "TRI-VERDICT"})
-    core.import_rules(rep, "c07", {"T-PATTERN", "T-SEARCH", "FLAG", "PLAIN-CASE", "AHO-OVERLAP", "T-OFFSET", "LOCKSTEP"})
+    core.import_rules(rep, "c07", {"T-PATTERN", "T-SEARCH", "FLAG", "PLAIN-CASE", "AHO-OVERLAP", "T-OFFSET", "LOCKSTEP", "LOWERCASE"})
     rep.floor("T-LOWER", 40)
     rep.floor("OPERAND", 30)
     rep.floor("T-YAML", 14)
